@@ -402,7 +402,7 @@ func Generate(g *pk.Gen, prop string) {
 				job(mk(validEnc(e), cfg2, &e, fmt.Sprintf("enc;remote-password-boundary;%d;%d", b, d)), g.Rng.Intn(3))
 			}
 		}
-		nmulti := 60
+		nmulti := 500
 		if g.Thorough {
 			nmulti = 12000
 		}
@@ -419,7 +419,7 @@ func Generate(g *pk.Gen, prop string) {
 		}
 	}
 	if prop == "C09" || prop == "" {
-		n := 150
+		n := 400
 		if g.Thorough {
 			n = 4000
 		}
